@@ -17,6 +17,14 @@ fn ints(v: &Value) -> Vec<i32> {
 fn run_exh(case: &Value) -> Value {
     OUT.lock().unwrap().clear();
     let prog = case["prog"].as_str().unwrap().to_owned();
+    if prog == "atomic_keyed" {
+        // C34: every read is sent after the acknowledgement of the write (key, inc) was observed
+        let a = ints(&case["a"]);
+        let (count, seen) = h_sim_e2e::atomic_keyed_exhaustive(a[0] as u32, a[1]);
+        let distinct: BTreeSet<i32> = seen.iter().copied().collect();
+        return json!({"executions": count, "observed": seen.len(), "distinct": distinct.len(),
+                      "outcomes": distinct.into_iter().collect::<Vec<i32>>(), "acked_increment": a[1]});
+    }
     let a = ints(&case["a"]);
     let b = ints(&case["b"]);
     let mut flow = FlowBuilder::new();
